@@ -33,7 +33,9 @@ pub fn boolean(input: Input<'_>) -> ParserResult<'_, ASN1Type> {
     map(
         into(skip_ws_and_comments(preceded(
             tag(BOOLEAN),
-            skip_ws_and_comments(opt(constraints)),
+            // white-space and comments are skipped only in front of a constraint: what
+            // follows an unconstrained BOOLEAN belongs to the next assignment
+            opt(skip_ws_and_comments(constraints)),
         ))),
         ASN1Type::Boolean,
     )
